@@ -417,9 +417,9 @@ func c13RaceParent(sh *evidence.Shard) {
 	if env.Shard != 0 {
 		return
 	}
-	iters := 150
+	iters := 300
 	if env.Thorough() {
-		iters = 600
+		iters = 3000
 	}
 	p := sh.Part("free-running-race-pass", "race")
 	p.Note("NOT an enumeration (evaluations stay 0): %d free-running iterations of both concurrent bodies on real goroutines (GOMAXPROCS=4) in a -race build; gating = reports with a frame in extras/obfs/salamander.go or conn.go, oracle failures, crashes", iters)
